@@ -319,13 +319,13 @@ def valgrind_step(run, binaries, scale):
 def c20(run):
     import concurrent.futures as cf, threading
     quick = run.tier == 'quick'
-    scale = 0.25 if quick else 2.0
+    scale = 0.15 if quick else 2.0
     names = [b for b, _ in ENGINE_BINARIES]
     exes = D.build_or_violation(run, names, 's')
     exes_n = D.build_or_violation(run, ['introspect'], 'n')
     if exes and exes_n:
         fa = D.factors_file(exes_n['introspect'])
-        shards = {'qty': 4, 'rel': 2}
+        shards = {'qty': 4, 'rel': 6}
         jobs = [(b, k, shards.get(b, 1)) for b in names for k in range(shards.get(b, 1))]
         def one(job):
             b, k, n = job
@@ -343,7 +343,30 @@ def c20(run):
                     else: run.per_check[k] = v
                 run.samples += sub.samples[:3]; run.notes += sub.notes; run.fails += sub.fails
     run.rules['san'] = ('every rapidcheck property of C01-C18 (all engines) re-run in a build with AddressSanitizer, UndefinedBehaviorSanitizer (incl. enum, signed-integer-overflow, bounds, null, float-cast-overflow; no recovery) and '
-                        '_GLIBCXX_ASSERTIONS, at %s of the quick counts; every registry call is wrapped: any exception other than std::bad_alloc is a failure; a sanitizer abort is attributed to the case being run' % ('25%' if quick else '200%'))
+                        '_GLIBCXX_ASSERTIONS, at %s of the quick counts; every registry call is wrapped: any exception other than std::bad_alloc is a failure; a sanitizer abort is attributed to the case being run' % ('15%' if quick else '200%'))
+    # the same registries compiled by the second supported compiler (clang++ -O2): the oracles are compiler-independent (IEEE arithmetic, exact
+    # references), so any disagreement is a defect that only one compiler exposes
+    exes_c = D.build_or_violation(run, ['units', 'qty', 'rel'], 'c')
+    if exes_c and exes_n:
+        fa = D.factors_file(exes_n['introspect'])
+        cjobs = [('units', 0, 1), ('qty', 0, 2), ('qty', 1, 2), ('rel', 0, 2), ('rel', 1, 2)]
+        def onec(job):
+            b, k, n = job
+            sub = D.Run(run.prop, 'quick')
+            env = {'VERIF_FACTORS': fa, 'VERIF_SKIP': SAN_SKIP, 'VERIF_MAXN': '20000' if quick else '200000'}
+            if n > 1: env['VERIF_SHARD'] = '%d/%d' % (k, n)
+            D.run_engine(sub, b, exes_c[b], [], flavour='c', scale=0.25 if quick else 2.0, extra_env=env, tag='.c%s%d' % (b, k))
+            return sub
+        with cf.ThreadPoolExecutor(max_workers=6) as ex:
+            for sub in ex.map(onec, cjobs):
+                run.evaluations += sub.evaluations; run.nontrivial += sub.nontrivial
+                for k, v in sub.classes.items(): run.classes[k] = run.classes.get(k, 0) + v
+                for k, v in sub.per_check.items():
+                    kk = k
+                    if kk in run.per_check: run.per_check[kk] = dict(evaluations=run.per_check[kk]['evaluations'] + v['evaluations'], distinct_nontrivial=run.per_check[kk]['distinct_nontrivial'] + v['distinct_nontrivial'])
+                    else: run.per_check[kk] = v
+                run.samples += sub.samples[:2]; run.notes += sub.notes; run.fails += sub.fails
+    run.rules['clang'] = 'the unit, quantity and relation registries rebuilt with clang++ -O2 and every property over them re-run (the engines and oracles are unchanged)'
     # the parsers on arbitrary bytes: rapidcheck (normal flavour) + libFuzzer
     engine_step(run, 'enums', ['C20'])
     fuzz_step(run, 300000 if quick else 30000000, 4 if quick else 16)
